@@ -90,6 +90,25 @@ def lin_eq(a, b):
     return isinstance(d, int) and d == 0
 
 
+def lsum(*vs):
+    """sum of integer values as a normalised linear term (int, leaf or Lin); None if one is not linear"""
+    acc = Lin(0)
+    for v in vs:
+        l = Lin.of(v)
+        if l is None:
+            return None
+        r = acc.add(l)
+        acc = Lin.of(r)
+    return acc.simp()
+
+
+def lscale(v, k):
+    l = Lin.of(v)
+    if l is None:
+        return None
+    return l.scale(k)
+
+
 def lin_diff(a, b):
     la, lb = Lin.of(a), Lin.of(b)
     if la is None or lb is None:
